@@ -305,11 +305,11 @@ def conformance(run, wd, kind, runs, cap, prefer=()):
     return done, bad, {k: sorted("/".join(x) for x in v) for k, v in sorted(table.items())}
 
 
-def run_threads(wd, name, stimuli, timeout=3000):
+def run_threads(wd, name, stimuli, timeout=3000, env=None):
     sp = os.path.join(wd, "stim_%s.ndjson" % name)
     op = os.path.join(wd, "out_%s.ndjson" % name)
     write_ndjson(sp, stimuli)
-    vlib.run_bin("h_reset", ["threads", sp, op], timeout=timeout)
+    vlib.run_bin("h_reset", ["threads", sp, op], timeout=timeout, env=env)
     return split_runs(read_ndjson(op))
 
 
@@ -372,6 +372,22 @@ def part_threads(run, wd, kind, thorough):
     runs = run_threads(wd, kind, stimuli)
     if len(runs) != len(stimuli):
         raise vlib.ToolError("h_reset threads: %d runs for %d stimuli" % (len(runs), len(stimuli)))
+    # the same stimuli (a sample) with wakers that share their data pointer across the polls of one wait and differ in the
+    # vtable only (Waker::will_wake is false between them, a comparison of data pointers is not)
+    rs = random.Random(run.seed + 77)
+    pool_ = [st for st in stimuli if sum(1 for p in st.get("progs", []) for o in p if "poll" in json.dumps(o)) >= 2] or stimuli
+    extra = []
+    for st in rs.sample(pool_, min(len(pool_), 600 if thorough else 120)):
+        e = dict(st)
+        e["id"] = sid
+        e["wakers"] = "shared-data"
+        sid += 1
+        extra.append(e)
+    runs_sh = run_threads(wd, kind + "_sharedwakers", extra, env={"H_RESET_WAKERS": "shared"})
+    if len(runs_sh) != len(extra):
+        raise vlib.ToolError("h_reset threads (shared-data wakers): %d runs for %d stimuli" % (len(runs_sh), len(extra)))
+    runs += runs_sh
+    stimuli += extra
     scripted = [r for r, st in zip(runs, stimuli) if st["strategy"] == "script"]
     drift = sum(1 for r in scripted if r[-1].get("drift", 0) > 0)
     hung = [r for r in runs if r[-1].get("outcome") != "completed"]
